@@ -118,6 +118,7 @@ func checkC16(c *Ctx) {
 	ruleStructuredTermination(c, dv)
 	ruleCancelAwareWaits(c, dv)
 	ruleNoCrossTalk(c, dv)
+	ruleClientClosed(c, dv, "R16.8")
 	c.MinCount("R16.1", 6)
 	c.MinCount("R16.2", 4)
 	c.MinCount("R16.3", 4)
